@@ -43,10 +43,21 @@ fn go_num<N: FromLabel + NumericOps>(pool: bool, op: &str, args: &[Arg]) -> Opti
     }
 }
 
+fn sort_kind(k: i128) -> SortKind {
+    match k { 1 => SortKind::Mergesort, 2 => SortKind::Heapsort, 3 => SortKind::Stable, _ => SortKind::Quicksort }
+}
+
 fn go_split<T: Lab>(op: &str, args: &[Arg]) -> Option<String> {
     let (sh, es) = match args.first() { Some(Arg::A(sh, es)) => (sh, es), _ => return None };
     let a = mk::<T>(sh, es)?;
     Some(match (op, &args[1..]) {
+        ("sort", [ax, Arg::N]) => res_arr(&a.sort(opt_isize(ax)?, None::<SortKind>)),
+        ("sort", [ax, Arg::Z(k)]) => res_arr(&a.sort(opt_isize(ax)?, Some(sort_kind(*k)))),
+        ("sort", [ax, Arg::S(k)]) => res_arr(&a.sort(opt_isize(ax)?, Some(std::str::from_utf8(k).ok()?))),
+        ("argsort", [ax, Arg::N]) => res_arr(&a.argsort(opt_isize(ax)?, None::<SortKind>)),
+        ("argsort", [ax, Arg::Z(k)]) => res_arr(&a.argsort(opt_isize(ax)?, Some(sort_kind(*k)))),
+        ("argsort", [ax, Arg::S(k)]) => res_arr(&a.argsort(opt_isize(ax)?, Some(String::from_utf8(k.clone()).ok()?))),
+        ("unique", [ax]) => res_arr(&a.unique(opt_isize(ax)?)),
         ("array_split", [Arg::Z(p), ax]) => res_arrs(&a.array_split(*p as usize, opt_usize(ax)?)),
         ("split", [Arg::Z(p), ax]) => res_arrs(&ArraySplit::split(&a, *p as usize, opt_usize(ax)?)),
         ("split_axis", [Arg::Z(ax)]) => res_arrs(&a.split_axis(*ax as usize)),
@@ -66,7 +77,7 @@ pub fn dispatch(op: &str, ty: &str, args: &[Arg]) -> Option<String> {
             "f64" => go_num::<f64>(false, op, args), "f64p" => go_num::<f64>(true, op, args), "f32p" => go_num::<f32>(true, op, args),
             _ => None,
         },
-        "array_split" | "split" | "split_axis" | "hsplit" | "vsplit" | "dsplit" =>
+        "array_split" | "split" | "split_axis" | "hsplit" | "vsplit" | "dsplit" | "sort" | "argsort" | "unique" =>
             Some(with_lab_type!(ty, T, match go_split::<T>(op, args) { Some(s) => s, None => "bad:input".to_string() })),
         _ => return None,
     };
